@@ -329,18 +329,35 @@ func Harness_C09_Matrix() {
 	vAssert("keypair", err == nil)
 	craKey := []byte("cra-key")
 	ks := &vKeyStore{user: "alice", keys: map[string][]byte{"ticket": []byte("s3cr3t"), "wampcra": craKey, "cryptosign": pub[:]}, role: "user"}
-	configured := vChoice("configured-methods", 16) // bit0 ticket, bit1 wampcra, bit2 cryptosign, bit3 anonymous
-	localAuth := vBool("RequireLocalAuth")
-	local := vBool("local-peer")
+	// roles: all client roles (the full matrix below), or - with the other
+	// dimensions fixed - a roles item without any client role / with an unknown extra role
+	rolesKind := vChoice("roles", 6)
+	special := rolesKind != 0
+	configured, localAuth, local := 15, true, false
+	if !special {
+		configured = vChoice("configured-methods", 16) // bit0 ticket, bit1 wampcra, bit2 cryptosign, bit3 anonymous
+		localAuth = vBool("RequireLocalAuth")
+		local = vBool("local-peer")
+	} else {
+		local = vBool("local-peer")
+		localAuth = !local || vBool("RequireLocalAuth")
+	}
 	r := vAuthRouterT(ks, configured, localAuth)
 	rl := r.realms["realm1"]
 
 	// HELLO
-	authidChoice := vChoice("authid", 3)
+	authidChoice := 0
+	if !special {
+		authidChoice = vChoice("authid", 3)
+	}
 	authid := []string{"alice", "mallory", ""}[authidChoice]
 	var offered wamp.List
 	var valid []string
-	switch k := vChoice("offer.first", 7); k {
+	firstOffer := 0
+	if !special {
+		firstOffer = vChoice("offer.first", 7)
+	}
+	switch k := firstOffer; k {
 	case 0, 1, 2, 3:
 		offered = append(offered, vMethodNames[k])
 		valid = append(valid, vMethodNames[k])
@@ -350,13 +367,28 @@ func Harness_C09_Matrix() {
 		offered = append(offered, 7)
 	case 6: // no authmethods at all
 	}
-	if len(offered) > 0 {
+	if len(offered) > 0 && !special {
 		if k := vChoice("offer.second", 5); k < 4 {
 			offered = append(offered, vMethodNames[k])
 			valid = append(valid, vMethodNames[k])
 		}
 	}
-	hd := wamp.Dict{"roles": vAllRoles,
+	// roles: all client roles, or a dict without any client role
+	var roles any = vAllRoles
+	hasClientRole := true
+	switch rolesKind {
+	case 1:
+		roles, hasClientRole = wamp.Dict{}, false
+	case 2:
+		roles, hasClientRole = wamp.Dict{"dealer": wamp.Dict{}, "broker": wamp.Dict{}}, false
+	case 3:
+		roles, hasClientRole = wamp.Dict{"Caller": wamp.Dict{}, "": wamp.Dict{}}, false
+	case 4:
+		roles, hasClientRole = "caller", false
+	case 5:
+		roles = wamp.Dict{"subscriber": wamp.Dict{}, "observer": wamp.Dict{}}
+	}
+	hd := wamp.Dict{"roles": roles,
 		"session": wamp.ID(666), "authrole": "admin", "authmethod": "forged", "authprovider": "forged"}
 	if authidChoice != 2 {
 		hd["authid"] = authid
@@ -367,7 +399,10 @@ func Harness_C09_Matrix() {
 	hello := &wamp.Hello{Realm: "realm1", Details: hd}
 
 	// the client's answer to a challenge
-	answerKind := vChoice("answer", 5) // 0 correct, 1 wrong secret, 2 right secret over another message (cryptosign) / wrong, 3 not an AUTHENTICATE, 4 silence
+	answerKind := 0
+	if !special {
+		answerKind = vChoice("answer", 5)
+	} // 0 correct, 1 wrong secret, 2 right secret over another message (cryptosign) / wrong, 3 not an AUTHENTICATE, 4 silence
 	answer := func(c *wamp.Challenge) wamp.Message {
 		switch answerKind {
 		case 3:
@@ -388,7 +423,9 @@ func Harness_C09_Matrix() {
 			if answerKind == 0 {
 				return &wamp.Authenticate{Signature: crsign.SignChallenge(ch, craKey)}
 			}
-			return &wamp.Authenticate{Signature: crsign.SignChallenge(ch, []byte("other-key"))}
+			// keys an attacker can try without knowing the secret
+			wrongKey := [][]byte{[]byte("other-key"), {}, []byte(authid)}[vChoice("wrong.key", 3)]
+			return &wamp.Authenticate{Signature: crsign.SignChallenge(ch, wrongKey)}
 		case "cryptosign":
 			chHex, _ := wamp.AsString(c.Extra["challenge"])
 			ch, _ := hex.DecodeString(chHex)
@@ -412,7 +449,9 @@ func Harness_C09_Matrix() {
 	accept, wantChallenge := false, false
 	wantMethod, wantRole, wantProvider := "", "", ""
 	wantAuthid, checkAuthid := authid, true
-	if local && !localAuth {
+	if !hasClientRole {
+		// refused before any authentication
+	} else if local && !localAuth {
 		accept, wantMethod, wantRole, wantProvider = true, "local", "trusted", "static"
 		checkAuthid = authid != ""
 	} else {
